@@ -309,11 +309,11 @@ def obligations(tier):
          bounds='every single op (12 kinds x 6 mutation targets) x 6 shapes x 6 '
                 'constructors, followed by an items() read'),
       Ob('frozendict_history2', history2,
-         dict(shape=I(0, 2 if quick else NSHAPE - 1), how=I(0, 1 if quick else 5),
+         dict(shape=I(0, 2 if quick else NSHAPE - 1), how=I(0, 1 if quick else 3),
               o1=op, o2=op, p1=pm, p2=pm, same=B() if not quick else I(1, 1)),
          split=('shape', 'how', 'o1'), timeout=600, funcs=F,
          bounds='all ordered pairs of ops; quick: 3 shapes x 2 constructors, both '
-                'ops aim at the same mutation target; thorough: 6 x 6, independent '
+                'ops aim at the same mutation target; thorough: 6 x 4, independent '
                 'targets'),
       Ob('frozendict_eq_hash', eq_hash,
          dict(pa=I(0, 5), pb=I(0, 5), v=I(-3, 3), w=I(-3, 3), nested=B()),
